@@ -44,6 +44,14 @@ func runC17FaultFree(rc *core.RunCtx) {
 		maxOps = 20
 	}
 	scripts := genOps(g, rc, nodes, targets, 1+g.Pick(2, 4, 3), maxOps, false)
+	if w.tls && g.Bool(0.15) {
+		// one message larger than drpc's default buffer; the nodes were configured with a larger one
+		t := g.IntN(len(scripts))
+		i := g.IntN(len(scripts[t]))
+		scripts[t][i].kind = 5
+		rc.Scen("%s is a 5 MB message (inbound buffers are configured at %d MB)", scripts[t][i].key, bigBuffer>>20)
+		simrt.Fault("message-larger-than-default-buffer")
+	}
 	fin := runScripts(w, scripts)
 	// request/response across nodes
 	type reqR struct {
